@@ -4,8 +4,10 @@ lean/Cellml/Generated/Code/GraphNum.lean, tied to C09.stripGraph in lean/Cellml/
 Leaves bound here (none of them is decided inside graph_with_sympy_numbers):
  * the cache attribute self._graph_with_sympy_numbers: an explicit state variable `cache`, returned with the result;
  * self.graph.copy(): the built graph (tied separately);
- * graph.nodes[n]['equation'], equation.lhs; equation.rhs.atoms(Quantity) (sympy); the dict comprehension that maps
-   each Quantity to its Float is represented by its key list (only its truthiness is asked);
+ * graph.nodes[n]['equation'], equation.lhs; equation.rhs.atoms(Quantity) (sympy; in the view `numView` it is
+   `quantityAtoms e`, a list that is non-empty iff the model input `Eqn.hasQ` says the right-hand side holds a Quantity);
+   the dict comprehension that maps each Quantity to its Float is represented by its key list (only its truthiness is
+   asked: `if subs_dict:` - the guard the hand model `C09.keepEdge` now has as well);
    equation.rhs.xreplace(subs_dict) (sympy: the substituted right-hand side, identified by its equation) and
    find_variables_and_derivatives([rhs]) = the model's INPUT `Eqn.refsNum` (observed from sympy, see C09/Model.lean);
  * tuple(graph.in_edges(v)), edge[0], graph.remove_edge(u, v) (networkx);
